@@ -438,6 +438,8 @@ void LabeledUndirectedGraph<EdgeLabel>::removeVertexFromEdgeList(
                 ++j;
             }
     }
+    for (VertexIndex i : *this)
+        Directed::edgeLabels.erase(orderedEdge(i, vertex));
 }
 
 template <typename EdgeLabel>
